@@ -57,4 +57,59 @@ def run(out, tier):
                 out.fail("lang:" + drv[k].split("(")[1], {"kind": "lang", "call": drv[k], "printed": g, "reference": w, "a": 0, "b": 0})
     if len(got) != len(want):
         out.fail("lang:line-count", {"kind": "lang", "printed_lines": len(got), "reference_lines": len(want), "a": 0, "b": 0})
-    return {"language_level_lines": n, "language_level_mismatches": bad}
+    pos = positions(out)
+    return {"language_level_lines": n, "language_level_mismatches": bad, **pos}
+
+
+# operands reaching // and % from every kind of binding (the operator -> helper selection depends on the IR type the
+# lowering knows for the operand; a closure parameter has none)
+POSITIONS = {
+    "local": "    x = a\n    y = b\n    return x {OP} y",
+    "closure_left": "    f = (x) => x {OP} b\n    return f(a)",
+    "closure_right": "    f = (y) => a {OP} y\n    return f(b)",
+    "closure_both": "    f = (x, y) => x {OP} y\n    return f(a, b)",
+    "closure_literal_divisor": None,  # built per divisor below
+    "list_elements": "    xs = [a, b]\n    return xs[0] {OP} xs[1]",
+    "model_fields": "    p = LPair(x=a, y=b)\n    return p.x {OP} p.y",
+    "tuple_fields": "    t = (a, b)\n    return t.0 {OP} t.1",
+    "comprehension_var": "    rs = [v {OP} b for v in [a]]\n    return rs[0]",
+    "loop_var": "    mut r = 0\n    for v in [a]:\n        r = v {OP} b\n    return r",
+    "match_binding": "    o: Option[int] = Some(a)\n    match o:\n        case Some(v):\n            return v {OP} b\n        case None:\n            return 0",
+    "call_results": "    return lident(a) {OP} lident(b)",
+    "nested_expression": "    return (a + 0) {OP} (b * 1)",
+    "compound_in_closure": None,
+}
+
+
+def positions(out):
+    from . import c01
+
+    pre = "model LPair:\n    x: int\n    y: int\n\n\ndef lident(v: int) -> int:\n    return v\n\n\n"
+    units = []
+    for pk, body in POSITIONS.items():
+        for on, op in (("fd", "//"), ("md", "%")):
+            name = f"lp_{pk}_{on}"
+            if pk == "closure_literal_divisor":
+                decl = f"def {name}(a: int, b: int) -> int:\n    f = (x) => x {op} 3\n    g = (x) => x {op} -3\n    return f(a) * 100 + g(a)"
+            elif pk == "compound_in_closure":
+                continue
+            else:
+                decl = f"def {name}(a: int, b: int) -> int:\n" + body.replace("{OP}", op)
+            drv = "\n".join(f"println({name}({a}, {b}))" for a in INTS for b in INTS if b != 0)
+            units.append(sem.Unit(name, (pre if pk in ("model_fields", "call_results") else "") + decl, drv, tags=("c04lang", pk, on)))
+    # declarations shared by several units must not be duplicated in one pack: build each unit as its own program
+    chk = c01.check_units(units)
+    acc = [u for u, c in zip(units, chk) if c["check"]["status"] == "ok"]
+    ran, failed = c01.build_packs([[u] for u in acc])
+    exp = c01.expected([u for u in acc if u.name in ran])
+    n_ok = 0
+    for name, (frames, result) in ran.items():
+        u = next(x for x in units if x.name == name)
+        why = c01.compare(u, frames, result, exp[name])
+        if why and why.startswith("MACHINERY"):
+            raise common.MachineryError(f"{name}: {why}")
+        if why:
+            out.fail(f"lang-position:{u.tags[1]}:{u.tags[2]}", {"kind": "lang", "unit": name, "why": why, "program": sem.pack([u])[0], "a": 0, "b": 0})
+        else:
+            n_ok += 1
+    return {"operand_positions": len(units), "operand_positions_accepted": len(acc), "operand_positions_matching": n_ok, "operand_positions_not_built": sorted(failed)}
